@@ -36,9 +36,16 @@ def shapes(thorough, rnd):
             args = [[k, "a"], [{"__tuple__": []}, {"__tuple__": [k, "b"]}], [{"__tuple__": [k, k, k]}]][(k + n) % 3]
             xp["x%dp" % (k + 1)] = {"flavour": xf, "args": args, "kwargs": {"kw": [k]}, "plaincall": (k + n) % 2 == 1}
         payloads.update(xp)
+        # an executed payload that itself executes a payload of another flavour before it ends
+        # (trio -> asyncio -> threading and the like), and a callable OBJECT without a hash
+        # executed without any arguments
+        # (used by the targeted scripts only: they are not part of the model-checked population)
+        others = [f for f in scen.FLAVS if f != xf]
+        nested = {"n2": {"flavour": others[1], "args": [], "kwargs": {}}, "n1": {"flavour": others[0], "args": [n], "kwargs": {}, "nested": "n2"},
+                  "xn": {"flavour": xf, "args": [], "kwargs": {}, "nested": "n1", "unhashable": n % 2 == 0}, "xu": {"flavour": xf, "args": [], "kwargs": {}, "unhashable": True}}
         proto = [{"op": "adopt", "p": "b1"}, {"op": "adopt", "p": "b2"}, {"op": "adopt", "p": "b3"}, {"op": "accept"}] + [{"op": "execute", "p": p, "how": "none"} for p in xp]
         out.append({"title": "execute flavour %s from %s" % (xf, ctxk), "payloads": payloads, "proto_script": proto, "hows": {p: HOWS for p in payloads},
-                    "exec_payloads": sorted(xp), "exec_hows": EXEC_HOWS, "exec_ctx": ctxs, "pre_all": ["b1", "b2", "b3"]})
+                    "exec_payloads": sorted(xp), "exec_hows": EXEC_HOWS, "exec_ctx": ctxs, "pre_all": ["b1", "b2", "b3"], "nested": nested})
     return out
 
 
@@ -62,6 +69,16 @@ def run(ctx):
     sh = shapes(thorough, rnd)
     for s in sh:
         s["mc_light"] = not thorough
-    scen.run_family(ctx, sh, names=NAMES, allow=(), mc_invariants=["AtMostOnce", "FailStopSafe"], mc_properties=["ExecLive"], per_shape=12 if thorough else 5, depth=40, label="c10", script_hook=fix_script)
+    # nested executes (an executed payload executes a payload of another flavour, which executes
+    # one of the third) and callable objects without a hash, from every non-coroutine context
+    extra = []
+    for base in sh[::3]:
+        for k, cx in enumerate(("driver", "thread", "payload:b3")):
+            pre = [{"op": "adopt", "p": b, "ctx": "driver"} for b in base["pre_all"]]
+            script = pre + [{"op": "accept"}, {"op": "wait_running"}] + [{"op": "wait_start", "p": b} for b in base["pre_all"]]
+            script += [{"op": "execute", "p": "xn", "ctx": cx, "how": EXEC_HOWS[(k * 5) % len(EXEC_HOWS)]}, {"op": "execute", "p": "xu", "ctx": cx, "how": EXEC_HOWS[(k * 3 + 1) % len(EXEC_HOWS)]}]
+            script += [{"op": "step", "p": b} for b in base["pre_all"]] + [{"op": "polls", "n": 2}]
+            extra.append({"seed": ctx.seed + k, "jitter": 0.0, "payloads": dict(base["payloads"], **base["nested"]), "script": script, "shape": "targeted-nested-and-unhashable-executes"})
+    scen.run_family(ctx, sh, names=NAMES, allow=(), extra_scenarios=extra, mc_invariants=["AtMostOnce", "FailStopSafe"], mc_properties=["ExecLive"], per_shape=12 if thorough else 5, depth=40, label="c10", script_hook=fix_script)
     ctx.extra["rule"] = "shapes = executed flavour x calling context (outside thread, thread payload, coroutine payload of another flavour); per behaviour 2..3 execute calls with outcomes drawn from None / falsy and truthy values / Exception subclasses and with positional and keyword arguments, interleaved with steps of adopted bystanders of all flavours"
     ctx.assumptions = RT_ASSUMPTIONS + ["no two blocking executes wait on each other's loop thread (execute is documented as blocking; DESIGN 7.5)", "identity of the outcome is checked with `is` inside the harness and logged as a boolean"]
